@@ -9,7 +9,7 @@ from ..common.outcome import Outcome, require
 
 ID = "C08"
 RULE = (
-    "identifier x length 1..32 x triple (x, y, z) from the identifier's C08 domain (zeros included for eps-shifted metrics, probability vectors "
+    "identifier x length 1..64 x triple (x, y, z) from the identifier's C08 domain (zeros included for eps-shifted metrics, probability vectors "
     "for bhattacharyya/KL/K-divergence), with forced classes: identical (same object and equal copy), parallel, one-dimensional, zero-containing, "
     "all-zero, 1-ulp-apart, near-duplicate chains x, x+d, x+2d (d from 1e-12 to 1e-3), large/small magnitude. Oracle per the axiom table of DESIGN.md section 5: finite (47), symmetric (42), "
     "non-negative and d(x,x)=0 up to rounding (45), triangle (13). Tolerances: the rounding scale of section 5. "
@@ -31,10 +31,13 @@ def strategy(tier, shard=0, nshards=1):
         name = names[draw(st.integers(0, 10**6)) % len(names)]
         dom = M.c08_domain(name)
         mag = draw(st.sampled_from([gen.MAG, gen.MAG, gen.MAG_SMALL, st.floats(1e3, 1e6), st.floats(1e-3, 1e-2)]))
-        x, y, kind = draw(gen.vector_pair(dom, nmax=32, mag=mag))
+        x, y, kind = draw(gen.vector_pair(dom, nmax=64, mag=mag))
         n = len(x)
         zk = draw(st.sampled_from(["indep", "indep", "between", "x", "y", "allzero", "chain", "chain"]))
-        if zk == "indep":
+        if kind == "sparse":
+            z = draw(st.lists(st.one_of(st.just(0.0), st.just(0.0), gen.elem(dom, mag)), min_size=n, max_size=n))
+            zk = "sparse"
+        elif zk == "indep":
             z = draw(gen.vector(dom, n, mag))
         elif zk == "between":
             z = gen._fix_domain(dom, [(a + b) / 2 for a, b in zip(x, y)], 1.0)
